@@ -29,16 +29,18 @@ def build(thorough):
         obs.append(Ob(f'{func}[{label}]' if label else func, H, func, t, env=env))
 
     all_rt = ['ofv', 'aic', 'bic:mixed', 'bic:fixed', 'bic:random', 'bic:iiv']
+    # (candidates, rank types, strictness-flag patterns pinned per process; '' = all flags symbolic)
     if thorough:
-        plan = [(1, all_rt, 0), (2, all_rt, 0), (3, all_rt, 4), (4, ['ofv', 'aic', 'bic:mixed'], 5)]
+        plan = [(1, all_rt, ['']), (2, all_rt, ['']), (3, all_rt, bits(2)), (4, ['ofv', 'aic', 'bic:mixed'], bits(5))]
     else:
-        plan = [(1, ['ofv'], 0), (2, all_rt, 0), (3, ['ofv', 'aic', 'bic:mixed'], 4)]
-    for nc, rts, pins in plan:
+        plan = [(1, ['ofv'], ['']), (2, all_rt, ['']),
+                (3, ['ofv', 'aic', 'bic:mixed'], ['00', '01', '10', '1100', '1101', '1110', '1111'])]
+    for nc, rts, pats in plan:
         for rt in rts:
-            for ok in bits(pins):
+            for ok in pats:
                 env = dict(VH_NC=nc, VH_RT=rt, VH_OK=ok)
                 label = f'NC={nc},{rt}' + (f',ok={ok}' if ok else '')
-                if nc >= 3 and ok.count('1') >= nc:
+                if (nc >= 4 and ok.count('1') >= 4) or (nc == 3 and ok == '1111'):
                     # the expensive corner (nearly all models eligible): also split on cut-off / penalties present
                     for cp in bits(2):
                         add('rank', label + f',cut={cp[0]},pen={cp[1]}', dict(env, VH_CUT=cp[0], VH_PEN=cp[1]))
@@ -48,13 +50,14 @@ def build(thorough):
     if thorough:
         lrt = [(1, 'base', cm, '', 0) for cm in (0, 1, 2)]
         lrt += [(2, par, cm, ok, 0) for par in ('base', 'chain', 'sym', 'symobj') for cm in (0, 1, 2)
-                for ok in bits(3 if par.startswith('sym') else 1)]
+                for ok in bits(1)]
         lrt += [(3, par, cm, ok, 1) for par, cm in (('base', 0), ('chain', 1)) for ok in bits(4)]
     else:
+        heavy = ['00', '01', '10', '110', '111']
         lrt = [(1, 'base', cm, '', 0) for cm in (0, 1, 2)]
         lrt += [(2, 'base', cm, ok, 0) for cm in (0, 1, 2) for ok in bits(1)]
         lrt += [(2, 'chain', 1, ok, 0) for ok in bits(1)]
-        lrt += [(2, 'sym', 0, ok, 0) for ok in bits(3)] + [(2, 'symobj', 2, ok, 0) for ok in bits(3)]
+        lrt += [(2, 'sym', 0, ok, 0) for ok in heavy] + [(2, 'symobj', 2, ok, 0) for ok in heavy]
     for nc, par, cm, ok, nonan in lrt:
         add('rank_lrt', f'NC={nc},parents={par},cutoff_mode={cm}' + (f',ok={ok}' if ok else '')
             + (',no_nan' if nonan else ''),
@@ -72,8 +75,8 @@ def build(thorough):
         obs.append(Ob(f'{f}__twin', H, f + '__twin', 120, kind='twin', env=tw))
     obs.append(Ob('rank_lrt__twin', H, 'rank_lrt__twin', 120, kind='twin', env=dict(VH_NC=2, VH_RT='lrt')))
     # most expensive first: many candidates, many eligible models
-    obs.sort(key=lambda o: (o.kind == 'twin', -int(o.env.get('VH_NC', 0)) - str(o.env.get('VH_OK', '')).count('1'),
-                            o.func != 'rank_lrt'))
+    obs.sort(key=lambda o: (o.kind == 'twin', -int(o.env.get('VH_NC', 0)) - str(o.env.get('VH_OK', '')).count('1')
+                            - (4 if str(o.env.get('VH_PAR', '')).startswith('sym') else 0), o.func != 'rank_lrt'))
     return obs, plan, lrt, slevel
 
 
@@ -177,7 +180,7 @@ def main():
                 'strictness atoms that need pandas/numpy (condition_number, rse_theta/omega/sigma, '
                 'final_zero_gradient_*, estimate_near_boundary*); summarize_tool/create_results around rank_models; '
                 'calculate_bic_penalty (mBIC search-space terms); lrt.best_of_many (numpy nanargmin); more than '
-                f'{max(nc for nc, _, _ in plan)} candidates; bootstrap / cdd / simeval / shrinkage / delta-method '
+                f'{max(p[0] for p in plan)} candidates; bootstrap / cdd / simeval / shrinkage / delta-method '
                 'statistics (numpy/pandas pipelines, not reachable by the solver) — this is why the claim is partial')
     run.assumptions = [
         'np in pharmpy.tools.run -> FakeNp: nan is an object with IEEE NaN semantics (absorbing, all comparisons '
